@@ -607,6 +607,45 @@ def run(idx: ProgramIndex, rep: Report, tier: str, selftest: bool = True):
                         "fixes the answer for every later argument (e.g. an upper and a lower factor are confused)", fn.loc()))
     if cached_sites < 25:
         rep.error(f"only {cached_sites} @cached sites found (expected >= 25)")
+    # ---- one cache name, one computation: as seen from any concrete class, the methods decorated with the same cache name
+    # all have the same method name (overrides of one another).  Two different methods under one name read each other's entry
+    # (an argument-less helper lands exactly on the key of the public method called without arguments).
+    def cache_name(fn_: FunctionInfo) -> Optional[str]:
+        for d in fn_.decorators:
+            f = d.func if isinstance(d, ast.Call) else d
+            if (dotted(f) or "").split(".")[-1] != "cached":
+                continue
+            if isinstance(d, ast.Call):
+                kw = next((k.value for k in d.keywords if k.arg == "name"), d.args[0] if d.args else None)
+                if isinstance(kw, ast.Constant) and isinstance(kw.value, str):
+                    return kw.value
+                if kw is not None:
+                    return None
+            return fn_.name
+        return None
+
+    reported = set()
+    for c in idx.operator_classes():
+        by_name: Dict[str, Dict[str, FunctionInfo]] = {}
+        for k_ in c.mro:
+            for mname, fn in k_.methods.items():
+                cn = cache_name(fn)
+                if cn is not None:
+                    by_name.setdefault(cn, {}).setdefault(mname, fn)
+        for cn, users in by_name.items():
+            if len(users) > 1:
+                key = (cn, tuple(sorted(users)))
+                if key in reported:
+                    continue
+                reported.add(key)
+                worst = sorted(users.items(), key=lambda kv: (kv[0].startswith("_") is False, kv[0]))[0][1]
+                rep.bad("C12.K", Finding(
+                    PROP, "C12.K", f"{worst.cls.name}.{worst.name}", f"cache name {cn!r} shared by the methods {sorted(users)}",
+                    f"the methods {sorted(users)} (as resolved on {c.name}) are all memoized under the cache name {cn!r}: a call of one "
+                    "of them with the same arguments returns what the OTHER one stored (a raw root tensor for a RootLinearOperator, a "
+                    "Lanczos root for an exact one), depending on the call history", worst.loc()))
+            else:
+                rep.count("C12.K")
 
     # ---------------------------------------------------------------- D (same rule as C13.D)
     for c in idx.operator_classes():
